@@ -1425,6 +1425,7 @@ func runC01(r *Report) {
 	c.r1("R1")
 	c.r2("R2")
 	c.r3("R3")
+	atomicWrites(r, "R3", objNamed("tor/piece", "state"), 1)
 	c.r4("R4")
 	c.r5("R5")
 	c.r6("R6")
